@@ -2,8 +2,8 @@ package main
 
 import (
 	_ "embed"
-	"go/ast"
 	"encoding/json"
+	"go/ast"
 	"go/types"
 	"os"
 	"sort"
@@ -29,6 +29,9 @@ type anchorTable struct {
 	Funcs  map[string]string `json:"funcs"`  // pkg|name → signature string
 	Types  map[string]string `json:"types"`  // pkg|name → shape string (field types without names)
 	Bodies map[string]string `json:"bodies"` // pkg|name → control-structure fingerprint of the function body (tie-break between equal signatures)
+	// AllFuncs: package path → names of all function declarations of the pinned tree in the packages the rules index; a declared
+	// function whose name is not listed is a helper introduced later and is expanded into its callers (inline.go)
+	AllFuncs map[string][]string `json:"allfuncs"`
 }
 
 var (
@@ -139,6 +142,12 @@ func flushRecordedAnchors() {
 	}
 	for k, v := range recorded.Funcs {
 		cur.Funcs[k] = v
+	}
+	if cur.AllFuncs == nil {
+		cur.AllFuncs = map[string][]string{}
+	}
+	for k, v := range recorded.AllFuncs {
+		cur.AllFuncs[k] = v
 	}
 	b, _ := json.MarshalIndent(cur, "", " ")
 	_ = os.WriteFile(path, append(b, '\n'), 0o644)
